@@ -81,6 +81,7 @@ JL_GOALS = {
     "a": _jl_hcfg(Strategy="AnySuccessful", Delay=0, JobPT=0),
     "b": _jl_hcfg(N=1, Delay=0, JobPT=1),
     "c": _jl_hcfg(MaxAtt=1, Delay=0),
+    "d": _jl_hcfg(MaxAtt=1, Delay=0, JobPT=0, JobTTL=4),
 }
 
 
